@@ -35,7 +35,7 @@ structure FileRun where
   deriving Repr, Inhabited
 
 structure LoopSt where
-  pending : String := ""
+  pending : Option String := none
   lexLoc : Loc := Loc.nil
   cfg : LR.Cfg := LR.Cfg.init
   st : PState
@@ -88,7 +88,14 @@ def processFile (env : Env) (budget : Option Nat) (src : Bytes) : FileRun :=
   match lineLoop env { st := st0 } 1 (splitLines src) with
   | .error r => r
   | .ok ls =>
-    match LR.feed ls.cfg LR.eofTok with
+    -- FIX(C09): a string literal still pending at end of file is handed to the parser before EOF
+    match (match Lex.finish ls.pending ls.lexLoc with
+           | some t => LR.feed ls.cfg t
+           | none => .ok ls.cfg) with
+    | .parseError => finish ls.st (.failure "Parse" "" ls.lexLoc)
+    | .panic => finish ls.st (.panic "parser")
+    | .ok cfg0 =>
+    match LR.feed cfg0 LR.eofTok with
     | .parseError => finish ls.st (.failure "Parse" "" ls.lexLoc)
     | .panic => finish ls.st (.panic "parser")
     | .ok cfg =>
